@@ -1,0 +1,15 @@
+//go:build verif
+
+package bitcoin_reader
+
+// SimYield, when set by a deterministic simulation harness, is called at the scheduling points
+// marked with simYield in the block download and tx management code. The harness can hold the
+// calling goroutine there to explore interleavings. It is nil unless a harness sets it, and this
+// file is only built with the "verif" build tag.
+var SimYield func(site string)
+
+func simYield(site string) {
+	if f := SimYield; f != nil {
+		f(site)
+	}
+}
